@@ -400,6 +400,44 @@ func generateMore(suite string, seed uint64, i int, r *rng, id string, g gp) *Ca
 			arg["truth"] = truth
 		}
 		return &Case{ID: id, Op: "solve", Arg: arg}
+	case "c01-paths": // DAGs with exponentially many directed paths: any search that forgets what it finished blows up
+		var edges [][]string
+		nm := func(k int) string { return "p" + strconv.Itoa(k) }
+		switch r.intn(3) {
+		case 0: // ladder of stacked diamonds
+			d := r.rangeIn(28, 44)
+			for j := 0; j < d; j++ {
+				a, b, c2, e := 3*j, 3*j+1, 3*j+2, 3*j+3
+				edges = append(edges, []string{nm(a), nm(b)}, []string{nm(a), nm(c2)}, []string{nm(b), nm(e)}, []string{nm(c2), nm(e)})
+			}
+		case 1: // chain with doubled (parallel) edges and skip edges
+			d := r.rangeIn(40, 70)
+			for j := 0; j < d; j++ {
+				edges = append(edges, []string{nm(j), nm(j + 1)})
+				if j+2 <= d {
+					edges = append(edges, []string{nm(j), nm(j + 2)})
+				}
+			}
+		default: // layered complete bipartite blocks of width 2
+			d := r.rangeIn(24, 36)
+			for j := 0; j < d; j++ {
+				for x := 0; x < 2; x++ {
+					for y := 0; y < 2; y++ {
+						edges = append(edges, []string{nm(2*j + x), nm(2*j + 2 + y)})
+					}
+				}
+			}
+		}
+		if r.chance(1, 2) { // any edge order
+			pm := r.perm(len(edges))
+			e2 := make([][]string, len(edges))
+			for i2, j := range pm {
+				e2[i2] = edges[j]
+			}
+			edges = e2
+		}
+		cfg := genCfg(r, cp{p1: []int{0, 1}, p2: []int{0, 1}, p4: []int{0, 1, 2}, p5: []int{0, 1, 2, 4}}, usedNames(edges))
+		return &Case{ID: id, Op: "layout", Cfg: cfg, Edges: edges, Arg: map[string]any{"timeout_ms": 20000.0}}
 	case "history": // C18
 		nruns := r.rangeIn(1, 3)
 		var runs []Run
